@@ -469,3 +469,52 @@ fn c02_additional_to_answer_resets_arcount() {
     assert!(an.as_slice().len() == 12);
     assert!(an.as_slice()[10] == 0 && an.as_slice()[11] == 0);
 }
+
+// @funcs: HeaderCounts::{inc_qdcount,inc_ancount,inc_nscount,inc_arcount,set_*,for_message_slice_mut}, Header::{set_id,set_qr,set_rcode,for_message_slice_mut}
+// @bound: any 12 header octets: each inc_* adds exactly one to its own big-endian counter and fails with CountOverflow (leaving all 12 octets untouched) exactly at 65535; header setters touch only their own bits
+#[kani::proof]
+#[kani::unwind(4)]
+fn c02_header_counts_increment_exactly() {
+    use domain::base::header::{Header, HeaderCounts};
+    use domain::base::iana::Rcode;
+    let orig: [u8; 12] = kani::any();
+    let mut buf = orig;
+    let which: u8 = kani::any();
+    kani::assume(which < 4);
+    let at = 4 + 2 * which as usize;
+    let before = (orig[at] as u16) << 8 | orig[at + 1] as u16;
+    let r = {
+        let c = HeaderCounts::for_message_slice_mut(&mut buf);
+        match which {
+            0 => c.inc_qdcount(),
+            1 => c.inc_ancount(),
+            2 => c.inc_nscount(),
+            _ => c.inc_arcount(),
+        }
+    };
+    let after = (buf[at] as u16) << 8 | buf[at + 1] as u16;
+    assert!(r.is_ok() == (before != 0xFFFF));
+    assert!(after == if r.is_ok() { before + 1 } else { before });
+    let i: usize = kani::any();
+    kani::assume(i < 12);
+    if i != at && i != at + 1 {
+        assert!(buf[i] == orig[i]);
+    }
+    // header setters
+    let mut b2 = orig;
+    let (id, qr, rc): (u16, bool, u8) = (kani::any(), kani::any(), kani::any());
+    kani::assume(rc < 16);
+    {
+        let h = Header::for_message_slice_mut(&mut b2);
+        h.set_id(id);
+        h.set_qr(qr);
+        h.set_rcode(Rcode::masked_from_int(rc));
+    }
+    assert!(b2[0] == (id >> 8) as u8 && b2[1] == id as u8);
+    assert!(b2[2] == (orig[2] & 0x7F) | if qr { 0x80 } else { 0 });
+    assert!(b2[3] == (orig[3] & 0xF0) | rc);
+    if i >= 4 {
+        assert!(b2[i] == orig[i]);
+    }
+    kani::cover!(r.is_err(), "counter overflow refused");
+}
